@@ -172,8 +172,16 @@ def run(prog, rep, tier):
                     r1.fail(root2, "complete_for-no-filter", "complete_for reports families complete without filtering out those another peer still awaits", v2.loc(bi))
                 continue
             tested = any(g[0] == "call" and g[1].endswith("Iterator::any") and "pending" in expr_vars(g) and l == {"false"} for g, l, h in flat_guards(v2, bi, b2rs))
-            if tested:
-                r1.ok("%s: FamilyDeferralComplete under `no peer still pending for the family`" % short(root2))
+            # .. and only on the transition pending -> not pending: the family was in this peer's set until now (the removal
+            # from the set, or a membership test before it, said so). Without that a repeated End-of-RIB, or one for a family
+            # that was never deferred, finds "nobody awaits it" again and releases the family a second time.
+            was = any(l == {"true"} and any(isinstance(x, tuple) and x and x[0] == "call" and re.search(r"HashSet::<T, S(, A)?>::(remove|contains|take)$", x[1]) for x in walk(g))
+                      for g, l, h in flat_guards(v2, bi, branches(v2, Renderer(v2, depth=12, through_names=True)), named=True))
+            if tested and not was:
+                r1.fail(root2, "family-complete-without-transition", "%s reports a family complete whenever no peer awaits it, without checking that the family was still awaited from this "
+                        "peer: a repeated End-of-RIB (or one for a family that was never deferred) releases the family again and every prefix of it is announced a second time" % short(root2), v2.loc(bi))
+            elif tested:
+                r1.ok("%s: FamilyDeferralComplete under `was pending for this peer` and `no peer still pending for the family`" % short(root2))
             else:
                 r1.fail(root2, "family-complete-without-pending-check", "%s reports a family complete without checking that no other configured helper still awaits End-of-RIB for it: "
                         "the family is released early (and a second time when that helper's End-of-RIB arrives)" % short(root2), v2.loc(bi))
